@@ -147,68 +147,105 @@ func checkC02(c *Ctx, w *World) {
 			incCalls = append(incCalls, call)
 		}
 	}
+	// every way of leaving (merged single exits are split per way in): no slot ⇒ no increment on the way; a slot ⇒ nil
+	// error, exactly one increment, of this slot, or the slot is nil on the ways that do not increment
 	rets := returnsOf(gai)
+	retNo := map[*ssa.Return]int{}
 	for i, r := range rets {
-		construct := fmt.Sprintf("%s return#%d", fname(gai), i+1)
-		v, onlyNil, ok := slotOrigin(r.Results[0])
-		errNil, _ := allOrigins(r.Results[1], isConstNilOrigin)
-		switch {
-		case !ok:
-			c.undecided("C02.place", construct, p.ipos(r), "returned slot has several distinct non-nil origins: "+originStrings(origins(r.Results[0])))
-		case onlyNil:
-			bad := ""
+		retNo[r] = i + 1
+	}
+	base := newCondSpace(gai, nil)
+	baseVRs := base.VirtualReturns()
+	type verdict struct {
+		bad, undecided []string
+		okText         []string
+	}
+	perRet := map[*ssa.Return]*verdict{}
+	for i, bvr := range baseVRs {
+		vd := perRet[bvr.Ret]
+		if vd == nil {
+			vd = &verdict{}
+			perRet[bvr.Ret] = vd
+		}
+		slot, errV := cellValue(bvr.Vals[0]), cellValue(bvr.Vals[1])
+		cs := newCondSpace(gai, recOf(eqAtom("slotnil", isVal(slot), isNil), eqAtom("errnil", isVal(errV), isNil)), "slotnil", "errnil")
+		vrs := cs.VirtualReturns()
+		if cs.err != "" || len(vrs) != len(baseVRs) || vrs[i].Ret != bvr.Ret {
+			vd.undecided = append(vd.undecided, "exit conditions could not be evaluated: "+cs.err)
+			continue
+		}
+		cond := vrs[i].Cond
+		onWay := func(ic *ssa.Call) bool { return mayPrecede(ic, bvr.Ret) && cs.Satisfiable(and(cond, cs.Reach(ic))) }
+		slotNil := isNilConst(slot)
+		if !slotNil {
+			slotNil, _ = cs.Implies(cond, cs.Atom("slotnil"))
+			slotNil = slotNil && cs.Seen("slotnil")
+		}
+		if slotNil {
 			for _, ic := range incCalls {
-				if mayPrecede(ic, r) {
-					bad = p.ipos(ic)
+				if onWay(ic) {
+					vd.bad = append(vd.bad, "a stream count is incremented (at "+p.ipos(ic)+") on a way out that returns no slot: the count leaks")
 				}
 			}
-			c.check(bad == "", "C02.place", construct, p.ipos(r), "returns no slot and no increment lies on any path to it", "a stream count is incremented (at "+bad+") on a path that returns no slot: the count leaks")
-		default:
-			if !errNil {
-				c.fail("C02.place", construct, p.ipos(r), "a slot is returned together with a possibly non-nil error: the caller drops it without a completion callback")
+			vd.okText = append(vd.okText, "no slot, no increment on the way")
+			continue
+		}
+		if _, isPhi := slot.(*ssa.Phi); isPhi {
+			vd.undecided = append(vd.undecided, "returned slot has several distinct origins: "+originStrings(origins(slot)))
+			continue
+		}
+		errNil := isNilConst(errV)
+		if !errNil {
+			errNil, _ = cs.Implies(cond, cs.Atom("errnil"))
+			errNil = errNil && cs.Seen("errnil")
+		}
+		if !errNil {
+			vd.bad = append(vd.bad, "a slot is returned together with a possibly non-nil error: the caller drops it without a completion callback")
+			continue
+		}
+		incd := cs.False()
+		var mine []*ssa.Call
+		for _, ic := range incCalls {
+			if !onWay(ic) {
 				continue
 			}
-			// paths reaching r without incrementing v must have v == nil
-			avoid := map[*ssa.BasicBlock]bool{}
-			for _, ic := range incCalls {
-				if cellValue(ic.Call.Args[0]) == cellValue(v) {
-					avoid[ic.Block()] = true
-				}
+			if cellValue(ic.Call.Args[0]) != slot {
+				vd.bad = append(vd.bad, "increments a different slot ("+vstr(ic.Call.Args[0])+") than the one returned")
+				continue
 			}
-			rec := recOf(eqAtom("slotnil", isVal(v), isNil))
-			cs := newCondSpaceAvoid(gai, rec, avoid, "slotnil")
-			imp, wit := cs.Implies(cs.Reach(r), cs.Atom("slotnil"))
-			// at most one increment per path, none in a loop, and only of the returned value
-			multi := ""
-			for a := 0; a < len(incCalls); a++ {
-				if !mayPrecede(incCalls[a], r) {
-					continue
-				}
-				if cellValue(incCalls[a].Call.Args[0]) != cellValue(v) {
-					multi = "increments a different slot (" + vstr(incCalls[a].Call.Args[0]) + ") than the one returned"
-				}
-				if inLoop(incCalls[a]) {
-					multi = "increment inside a loop"
-				}
-				for b := 0; b < len(incCalls); b++ {
-					if a != b && mayPrecede(incCalls[a], incCalls[b]) && mayPrecede(incCalls[b], r) {
-						multi = "two increments on one path"
-					}
-				}
+			if inLoop(ic) {
+				vd.bad = append(vd.bad, "increment inside a loop")
 			}
-			switch {
-			case cs.err != "":
-				c.undecided("C02.place", construct, p.ipos(r), cs.err)
-			case !imp:
-				c.fail("C02.place", construct, p.ipos(r), "a non-nil slot can be returned without its stream count having been incremented: "+wit)
-			case multi != "":
-				c.fail("C02.place", construct, p.ipos(r), multi)
-			default:
-				c.ok("C02.place", construct, p.ipos(r), "returns "+vstr(v)+": every path either incremented exactly this slot once or the slot is nil")
+			mine = append(mine, ic)
+			incd = or(incd, cs.Reach(ic))
+		}
+		for a := 0; a < len(mine); a++ {
+			for b := a + 1; b < len(mine); b++ {
+				if cs.Satisfiable(cs.And(cond, cs.Reach(mine[a]), cs.Reach(mine[b]))) {
+					vd.bad = append(vd.bad, "two increments on one way out")
+				}
 			}
 		}
+		if imp, wit := cs.Implies(and(cond, cs.Not(incd)), cs.Atom("slotnil")); !imp {
+			vd.bad = append(vd.bad, "a non-nil slot can be returned without its stream count having been incremented: "+wit)
+		}
+		vd.okText = append(vd.okText, "returns "+vstr(slot)+": incremented exactly once on the way, or nil")
 	}
-	c.floor("C02.place", len(rets), 3)
+	for _, r := range rets {
+		construct := fmt.Sprintf("%s return#%d", fname(gai), retNo[r])
+		vd := perRet[r]
+		switch {
+		case vd == nil:
+			c.ok("C02.place", construct, p.ipos(r), "unreachable exit")
+		case len(vd.bad) > 0:
+			c.fail("C02.place", construct, p.ipos(r), strings.Join(vd.bad, "; "))
+		case len(vd.undecided) > 0:
+			c.undecided("C02.place", construct, p.ipos(r), strings.Join(vd.undecided, "; "))
+		default:
+			c.ok("C02.place", construct, p.ipos(r), strings.Join(vd.okText, "; "))
+		}
+	}
+	c.floor("C02.place", len(baseVRs), 3)
 
 	// ---- C02.pick: no count leaks between placement and hand-over
 	gcalls := pl.callsIn(pl.pick, gai)
